@@ -17,7 +17,7 @@ RULE = ("regex texts rendered from random ASTs (depth <=4, tokens a b cd x1, esc
         "on accepts (all words <=3 + a foreign token), to_epsilon_nfa (exact equivalence), to_cfg (contains on words "
         "<=3), union/concatenate/kleene_star and operator forms, and str() re-parse. Non-trivial: AST has >=1 operator; "
         "distinct = distinct text."
-        ' Later additions: words as tuples and one-shot iterables; operands queried after their combination was built and queried.')
+        ' Later additions: words as tuples and one-shot iterables; operands queried after their combination was built and queried; to_cfg with a starting symbol chosen by the caller (also one spelt like the helper variables A0, A1, ...).')
 ASSUMPTIONS = ["ill-formed texts where the documented grammar is silent (trailing binary operator, empty group, empty "
                "string, doubled star) may be accepted or refused, but only with MisformedRegexError",
                "to_cfg comparison is bounded (words of length <= 3)"]
@@ -121,6 +121,11 @@ def post_cfg(sh, self, args, kwargs, result, exc):
         return
     if exc is not None:
         core.report(PROP, "to_cfg", "exception:" + type(exc).__name__, {"ast": sh[1]})
+        return
+    from pyformlang.cfg import Variable
+    st = args[0] if args else kwargs.get("starting_symbol", "S")
+    if result.start_symbol != (st if isinstance(st, Variable) else Variable(st)):
+        core.report(PROP, "to_cfg", "start-symbol-differs-from-the-one-asked-for", {"ast": sh[1], "asked": repr(st)})
         return
     alpha = sorted(sh[0].alpha)[:3]
     for wd in rn.all_words(alpha + ["zz_foreign"], 3 if len(alpha) <= 2 else 2):
@@ -291,6 +296,12 @@ def run_case(c, stats):
     call(r.to_epsilon_nfa)
     call(r.accepts, syms[:1])          # again after the conversion (cached automaton)
     call(r.to_cfg)
+    if len(text) % 3 == 0:
+        # a starting symbol chosen by the caller, also one that is spelt like the conversion's own helper variables
+        from pyformlang.cfg import Variable
+        for st in (["A0", "A1", "Start"], ["A2", Variable("A1"), "A3"], ["S", "A10", Variable("A0")])[len(text) // 3 % 3]:
+            call(r.to_cfg, st)
+            call(r.to_cfg, starting_symbol=st)
     call(str, r)
     if "text2" in c:
         ok2, r2 = call(Regex, c["text2"])
